@@ -211,14 +211,35 @@ func truncArgs(a []string) []string {
 }
 
 func TestC04(t *testing.T) {
-	S("C04").Rule = "declarations (every option type, choices also on flags, positionals, commands, namespaces) x hostile structured argv (junk tokens '', '-', '--', '---x', '-=', '--=v', invalid UTF-8, 5 kB tokens, multi-byte runes in clusters, bad values for every type, unknown options, help) x all 32 sets of {HelpFlag, PassDoubleDash, IgnoreUnknown, PrintErrors, PassAfterNonOption}; oracle: no panic, watchdog 20 s, error type as attributed by R (success expected => success), any non-flags error only where positional conversion can fail, fd-level stdout/stderr: empty without PrintErrors, exactly err+newline on the right stream with it. non-trivial: argv contains a junk/multi-byte token and at least one option token was processed; distinct by (declaration signature, argv)"
+	S("C04").Rule = "declarations (every option type, choices also on flags, positionals, commands, namespaces) x hostile structured argv (junk tokens '', '-', '--', '---x', '-=', '--=v', invalid UTF-8, 5 kB tokens, plain words of 7..257 characters around powers of two, multi-byte runes in clusters, bad values for every type, unknown options, help) x all 32 sets of {HelpFlag, PassDoubleDash, IgnoreUnknown, PrintErrors, PassAfterNonOption}; oracle: no panic, watchdog 20 s, error type as attributed by R (success expected => success), any non-flags error only where positional conversion can fail, fd-level stdout/stderr: empty without PrintErrors, exactly err+newline on the right stream with it. non-trivial: argv contains a junk/multi-byte token and at least one option token was processed; distinct by (declaration signature, argv)"
 	runProp(t, "C04", func(t *rapid.T) *ParseCase {
 		c := genParseCase(t, c04Decl, c04Argv)
 		c.Env = genEnv(t, c.D, 25)
 		c.ExecErr = []string{"", "help", "plain"}[weighted(t, "execErr", []int{6, 2, 2})]
 		c.CmdHandler = rapid.IntRange(0, 3).Draw(t, "cmdHandler") == 0
+		c04BoundaryTail(t, c)
 		return c
 	}, c04Oracle)
+}
+
+// c04BoundaryLens: word lengths (in characters) around powers of two, where
+// fixed-size buffers and their fallbacks meet.
+var c04BoundaryLens = []int{7, 8, 9, 15, 16, 17, 31, 32, 33, 63, 64, 65, 127, 128, 129, 255, 256, 257}
+
+// c04BoundaryTail appends, in one case out of eight, a plain word whose
+// length is one of c04BoundaryLens (single-byte or two-byte characters),
+// directly or behind "--": any argument vector is in the domain of C04.
+func c04BoundaryTail(t *rapid.T, c *ParseCase) {
+	if !pct(t, "boundaryTail", 12) {
+		return
+	}
+	n := c04BoundaryLens[uniformInt(t, "boundaryLen", len(c04BoundaryLens))]
+	unit := []string{"x", "\u00e9"}[uniformInt(t, "boundaryUnit", 2)]
+	if pct(t, "boundaryDash", 60) {
+		c.Args = append(c.Args, "--")
+	}
+	c.Args = append(c.Args, strings.Repeat(unit, n))
+	S("C04").Label("boundary-length word appended")
 }
 
 // ---- native fuzzing: arbitrary bytes as argv against fixed rich declarations ----
